@@ -18,6 +18,7 @@ func init() {
 		Explain: "Decides the RPC client's subscriber-channel safety for every interleaving of incoming records with Stop/Close as lock-discipline facts: for each stream handler type (monitor, event stream, query) every send on a subscriber channel and the close of it happen while the handler's own mutex is held, the send is behind closed==false read in that critical section, the close is behind !closed with closed=true stored in the same section (exactly once, never a send after close); Cleanup is invoked only by the two deregistration functions, each only for entries it removed from the dispatch table under the dispatch lock; the handler's flags are only accessed under its mutex; and the record path from the connection (listen → respondSeq → Handle) contains no undischarged panic obligation.",
 		Run:     runC28,
 		Mutants: []Mutant{
+			{Name: "deregister-skipped-when-closed", File: "client/rpc_client.go", Func: "func (c *RPCClient) deregisterHandler(", Old: "\tc.dispatchLock.Lock()\n", New: "\tif c.IsClosed() {\n\t\treturn\n\t}\n\tc.dispatchLock.Lock()\n", Expect: "R2|deregisterHandler:always-removes"},
 			{Name: "close-check-outside-section", File: "client/rpc_client.go", Func: "func (c *RPCClient) Close(", Old: "\tc.shutdownLock.Lock()\n\tdefer c.shutdownLock.Unlock()\n\n\tif !c.shutdown {\n", New: "\tif c.IsClosed() {\n\t\treturn nil\n\t}\n\tc.shutdownLock.Lock()\n\tdefer c.shutdownLock.Unlock()\n\n\tif true {\n", Expect: "R2|RPCClient:shutdownCh-closed-once"},
 			{Name: "cleanup-skips-close-before-init", File: "client/rpc_client.go", Func: "func (mh *monitorHandler) Cleanup(", Old: "\tmh.l.Lock()\n\tdefer mh.l.Unlock()\n", New: "\tmh.l.Lock()\n\tdefer mh.l.Unlock()\n\tif !mh.closed && !mh.init {\n\t\tmh.closed = true\n\t\treturn\n\t}\n", Expect: "R2|monitorHandler:cleanup-always-closes"},
 			{Name: "monitor-send-unlocked", File: "client/rpc_client.go", Func: "func (mh *monitorHandler) Handle(", Old: "\tmh.l.Lock()\n\tdefer mh.l.Unlock()\n\tif mh.closed {\n\t\treturn\n\t}\n", New: "\tif mh.closed {\n\t\treturn\n\t}\n", Expect: "R1"},
@@ -37,6 +38,23 @@ func runC28(c *an.Ctx) {
 	c.Rule("R3 panic obligations (C09's engine) on listen → respondSeq → Handle with the connection bytes as input")
 	locks := an.NewLocks(c.P)
 	fns := c.P.FuncsIn(clientPkg)
+	// every failing or finishing call path relies on deregisterHandler to run the handler's Cleanup: it must
+	// look the entry up on every path (no state of the client lets it return early)
+	if dh := c.P.Method(clientPkg, "RPCClient", "deregisterHandler"); c.NeedFunc("R2", dh, "client.(*RPCClient).deregisterHandler") {
+		isDel := func(in ssa.Instruction) bool {
+			call, ok := in.(*ssa.Call)
+			if !ok {
+				return false
+			}
+			b, ok := call.Call.Value.(*ssa.Builtin)
+			return ok && b.Name() == "delete" && an.Path(call.Call.Args[0]) == "$0.dispatch"
+		}
+		okAlways, ex := an.MustPass(dh, nil, isDel)
+		c.Add(okAlways, "R2", "deregisterHandler:always-removes", dh, "deregisterHandler removes (and then cleans up) the entry on every path: a handler registered around Close is still closed exactly once", "must-pass")
+		if !okAlways && ex != nil {
+			c.Obs[len(c.Obs)-1].Desc += " — exit without it at " + c.P.InstrPos(ex)
+		}
+	}
 	handlers := map[string][]string{"monitorHandler": {"logCh"}, "streamHandler": {"eventCh"}, "queryHandler": {"ackCh", "respCh"}}
 	for typ, chans := range handlers {
 		lk := typ + ".l"
